@@ -127,6 +127,33 @@ def main():
         except ZeroDivisionError:
             guard = False
         classes.append((cls.__name__, PRIM.get(prim, prim), swapped, guard))
+    # ---- every other exception must reach the caller ----
+    propagate = []
+
+    def raiser(exc):
+        class T(Tag):
+            pass
+
+        def r(self, *a):
+            raise exc("probe")
+        for o in BIN + ["eq", "ne"]:
+            setattr(T, "__%s__" % o, r)
+        for o in ["neg", "pos", "invert"]:
+            setattr(T, "__%s__" % o, r)
+        T.__hash__ = Tag.__hash__
+        return T("X")
+
+    for cls in list(R.BinOpExpr.__subclasses__()) + list(R.UnaryOpExpr.__subclasses__()):
+        for exc in (OverflowError, FloatingPointError, ArithmeticError, ValueError, TypeError):
+            node = cls(raiser(exc), O) if issubclass(cls, R.BinOpExpr) else cls(raiser(exc))
+            try:
+                node._get_value()
+                ok_ = False
+            except exc:
+                ok_ = True
+            except Exception:
+                ok_ = False
+            propagate.append((cls.__name__, exc.__name__, ok_))
     # ---- unary ----
     unary = []
     for d in SPEC_UN:
@@ -196,20 +223,51 @@ def main():
     deps = []
     P = r["P"]
     Q = r["Q"]
+    Q2 = r["Q2"]
+    Q3 = r["Q3"]
+
+    def inner_nodes():
+        """what may stand in a slot: the probe ref itself and every kind of node around it, including nodes
+        whose other operand contributes nothing (a literal, a LiteralExpr, a top-level container ref)"""
+        yield P
+        yield -P
+        for other in (1, R.LiteralExpr(2), r, -r):
+            yield R.AddExpr(other, P)
+            yield R.MulExpr(P, other)
+        yield R.BuiltinRef(P, abs)
+        yield R.BuiltinRef(Q2, round, (P,))
+        yield R.CallRef(Q2, (P,), {})
+        yield R.CallRef(Q2, (), {"k": P})
+        yield R.ItemRef(Q2, P, m)
+        yield R.AddExpr(R.BuiltinRef(P, abs), 1)
+        yield R.AddExpr(r, R.BuiltinRef(P, abs))
 
     def probe(cls, slot, make):
         covered, isset = True, True
-        for arg in (P, -P, R.AddExpr(1, P)):          # directly and nested below other nodes
+        want = P._get_dependencies()
+        for arg in inner_nodes():
             try:
-                dd = make(arg)._get_dependencies()
+                node = make(arg)
+                dd = node._get_dependencies()
             except Exception as e:
                 covered = False
                 continue
             if not isinstance(dd, set):
                 isset = False
                 covered = False
-            elif P not in dd:
+                continue
+            if not want <= dd:
                 covered = False
+            # the accumulator contract parents rely on: dependencies are added to the set that is passed in,
+            # whether it is still empty or not
+            for acc in (set(), {Q3}):
+                try:
+                    node._get_dependencies(acc)
+                except Exception:
+                    covered = False
+                    continue
+                if not want <= acc:
+                    covered = False
         try:
             dd = make(r)._get_dependencies()           # a top-level container ref in the slot
             if not isinstance(dd, set):
@@ -263,7 +321,7 @@ def main():
     red("ItemRef", R.ItemRef(P, "k", m), (P, "k", m))
     red("AttrRef", R.AttrRef(P, "k", m), (P, "k", m))
 
-    obs.update({"dunders": dunders, "classes": classes, "unary": unary, "builtin": builtin, "inplace": inplace,
+    obs.update({"propagate": [p for p in propagate if not p[2]], "dunders": dunders, "classes": classes, "unary": unary, "builtin": builtin, "inplace": inplace,
                 "deps": deps, "reduce": reduce_rows})
     with open(out_json, "w") as f:
         json.dump(obs, f, indent=1)
@@ -276,6 +334,7 @@ def main():
          "  bin := {",
          "    classes := [" + ", ".join("⟨%s, .%s, %s, %s⟩" % (lean_str(c), p, b(s), b(g)) for c, p, s, g in classes) + "],",
          "    dunders := [" + ", ".join("⟨%s, %s, .%s⟩" % (lean_str(d), lean_str(c), s) for d, c, s in dunders) + "] },",
+         "  propagate := [" + ", ".join("⟨%s, %s, %s⟩" % (lean_str(c), lean_str(e), b(k)) for c, e, k in propagate) + "],",
          "  unary := [" + ", ".join("⟨%s, %s, .%s⟩" % (lean_str(d), lean_str(c), p) for d, c, p in unary) + "],",
          "  builtin := [" + ", ".join("⟨%s, %s, %d, %s⟩" % (lean_str(d), lean_str(o), n, b(p)) for d, o, n, p in builtin) + "],",
          "  inplace := [" + ", ".join("⟨%s, %s, %s, %s⟩" % (lean_str(d), b(pr), ("some .%s" % vp) if vp else "none",
